@@ -53,3 +53,6 @@ uint8_t _ZNK7QString10startsWithERKS_N2Qt15CaseSensitivityE(char *self, char *o,
   return _ZN9QtPrivate10startsWithE11QStringViewS0_N2Qt15CaseSensitivityE(a->f1, (char*)qs_chars(a), b->f1, (char*)qs_chars(b), cs); }
 /* log-message formatting: identity on the format string */
 void _ZNK7QString3argERKS_i5QChar(char *ret, char *self, char *a, uint32_t w, uint16_t fill) { *(QAD**)ret = qad_ref(*(QAD**)self); }
+void _ZN7QString23toLatin1_helper_inplaceERS_(char *ret, char *self) { QAD *s = *(QAD**)self; to8(ret, qs_chars(s), s->f1, 0x100); }
+/* QDate::fromString(text, format) (vCard BDAY): date syntax is Qt's; the null date */
+uint64_t _ZN5QDate10fromStringERK7QStringS2_(char *s, char *fmt) { return 0x8000000000000000ULL; }
